@@ -116,6 +116,8 @@ def do_compile(job) -> dict:
     limit = float(job.get("limit", 10))
     main = write_files(job)
     proto = None
+    import time as _time
+    cpu0 = _time.process_time()
     try:
         _set_limit(limit)
         proto = parse(main)
@@ -150,6 +152,8 @@ def do_compile(job) -> dict:
                 _clear_limit()
                 res["stages"]["lint"] = classify(e)
         for lang in job.get("langs", ["c", "go", "py"]):
+            if any(v.get("cls") == "hang" for v in res["stages"].values()):
+                break        # one stage already ran into the time limit: do not pay it three more times
             try:
                 _set_limit(limit)
                 render(proto, lang, outdir=job["dir"])
@@ -158,6 +162,7 @@ def do_compile(job) -> dict:
             except BaseException as e:  # noqa
                 _clear_limit()
                 res["stages"]["render_" + lang] = classify(e)
+    res["cpu_s"] = round(_time.process_time() - cpu0, 4)     # parse + lint + render, this process
     if job.get("cli"):
         res["stages"]["cli"] = do_cli(job, main, limit)
         if job.get("cli_check"):
